@@ -55,6 +55,7 @@ PATTERNS = [
 FIXED_WITNESSES = [
     ("F05-1", "performance.remove_redundant_chained_calls", "print(list(reversed(sorted(x))))\n", (), {}),
     ("F05-1", "performance.remove_redundant_chained_calls", "y = reversed(sorted(k, reverse=foo() == 3))\n", (), {}),
+    ("F05-1", "performance.remove_redundant_chained_calls", "y = list(iter(reversed(sorted(v1))))\n", (), {}),
     ("F05-2", "object_oriented.remove_unused_self_cls",
      "class A:\n    def f(self, a):\n        return a + 1\n\n    def g(self):\n        return self.f(2)\n", (), {}),
     ("F05-2", "object_oriented.remove_unused_self_cls",
